@@ -496,6 +496,12 @@ func GenGenSpec(dt *drv.T, cfg GenCfg) *GenSpec {
 	menu := []string{"scalar", "scalar", "slice", "slice", "map", "mapvalues", "string", "strmatch", "bytesmatch", "perm", "oneof", "ptr", "deferred", "mapped", "filter", "filter"}
 	if cfg.RejectHeavy {
 		menu = append(menu, "distinct", "distinct", "distinct", "map", "filter", "string")
+		if chance(dt, "bigdistinct", 4) {
+			// many distinct elements out of a domain that is only a little larger: long runs of rejected duplicates, and
+			// every now and then a draw that gives up (the one place where the usual cap on lengths is not applied)
+			n := drv.IntRange(16, 28).Draw(dt, "bign")
+			return &GenSpec{K: "slice", Min: n, Max: -1, Fn: "id", Sub: []*GenSpec{{K: "int", IK: "Int", Mode: "range", SA: 0, SB: int64(n + n/4)}}}
+		}
 	}
 	if cfg.Custom {
 		menu = append(menu, "custom", "custom")
